@@ -98,6 +98,37 @@ def _verdict_tracks_record(t1, t2, maxtries, l1, l2, depth, same_rule):
     return bool(v1) == want(t1, l1) and bool(v2) == want(t2, l2)
 
 
+# ---------------------------------------------------------------- the list-valued scope options as the command line delivers them
+_LIST_OPTS = [('--accept', 'accept'), ('--reject', 'reject'), ('--domains', 'domains'), ('--exclude-domains', 'exclude_domains'),
+              ('--hostnames', 'hostnames'), ('--exclude-hostnames', 'exclude_hostnames'),
+              ('--include-directories', 'include_directories'), ('--exclude-directories', 'exclude_directories')]
+_LIST_VALS = ['a', 'page[0-9],*.zip', 'example.com,other.invalid', '/d,/e/', 'x', 'a,b,c']
+
+
+def _option_lists(opt_i, val_i):
+    """Every list-valued accept/reject option, parsed by the real argument parser, reaches its filter as the LIST of its
+    comma-separated entries (a string would be iterated character by character by the filters)."""
+    from wpull.application.options import AppArgumentParser
+    opt, attr = pick(_LIST_OPTS, opt_i)
+    val = pick(_LIST_VALS, val_i)
+    with nosym():
+        args = AppArgumentParser().parse_args(['http://example.com/', '--recursive', opt, val])
+        got = getattr(args, attr)
+        filters = URLFiltersSetupTask._build_url_filters(types.SimpleNamespace(args=args))
+    if got != val.split(','):
+        return False
+    hit('parsed')
+    cls = {'accept': 'BackwardFilenameFilter', 'reject': 'BackwardFilenameFilter', 'domains': 'BackwardDomainFilter', 'exclude_domains': 'BackwardDomainFilter',
+           'hostnames': 'HostnameFilter', 'exclude_hostnames': 'HostnameFilter', 'include_directories': 'DirectoryFilter',
+           'exclude_directories': 'DirectoryFilter'}[attr]
+    fs = [f for f in filters if type(f).__name__ == cls]
+    if len(fs) != 1:
+        return False
+    f = fs[0]
+    side = f._rejected if attr in ('reject', 'exclude_domains', 'exclude_hostnames', 'exclude_directories') else f._accepted
+    return side == val.split(',')
+
+
 # ---------------------------------------------------------------- H4 construction of the filter list from options
 from wpull.application.tasks.rule import URLFiltersSetupTask  # noqa: E402
 
@@ -459,6 +490,11 @@ def _schemes_similar_kernel(i, j):
 _FILTER_NAMES = ['Scheme', 'HTTPSOnly', 'FollowFTP', 'BackwardDomain', 'Hostname', 'Parent', 'SpanHosts', 'Directory',
                  'BackwardFilename', 'Regex']
 HARNESSES += [
+    H('option_lists', '_option_lists', 'opt_i: int, val_i: int', pre=['0 <= opt_i < %d and 0 <= val_i < %d' % (len(_LIST_OPTS), len(_LIST_VALS))],
+      timeout={'quick': 200, 'thorough': 400}, samples=[(0, 1), (1, 1), (7, 3)], need=['parsed'],
+      funcs=['wpull/application/options.py:AppArgumentParser._add_accept_args', 'wpull/application/tasks/rule.py:URLFiltersSetupTask._build_url_filters'],
+      doc='each of the 8 list-valued scope options given on a real command line (6 values incl. patterns with brackets and several '
+          'entries) is parsed to the list of its comma-separated entries and wired to the accepted / rejected side of the right filter'),
     H('filter_vs_reference', '_filter_vs_reference',
       'which: int, ui: int, pi: int, ri: int, inline: Optional[int], a: int, b: int, flag1: bool, flag2: bool, flag3: bool',
       pre=['0 <= ui < %d and 0 <= pi < %d and 0 <= ri < %d and 0 <= a <= 2 and 0 <= b <= 2' % (len(_URLS), len(_PARENTS), len(_ROOTS)),
